@@ -670,6 +670,16 @@ theorem jaeger_extract_valid_or_unchanged (h : Bytes) :
     · exact Or.inl rfl
   · exact Or.inl rfl
 
+/-- **never reads out of bounds** (both extractors; the name used in DESIGN.md) -/
+theorem never_oob : (∀ b3 tid sid smp : Bytes, ∃ r, B3.extract b3 tid sid smp = .ok r) ∧ (∀ h : Bytes, ∃ r, Jaeger.extract h = .ok r) :=
+  ⟨b3_never_oob, jaeger_never_oob⟩
+
+/-- **for arbitrary bytes: a context with non-zero ids, or the caller's context unchanged** (both extractors) -/
+theorem extract_valid_or_unchanged :
+    (∀ b3 tid sid smp : Bytes, B3.extract b3 tid sid smp = .ok none ∨ ∃ sc, B3.extract b3 tid sid smp = .ok (some sc) ∧ Installable sc) ∧
+    (∀ h : Bytes, Jaeger.extract h = .ok none ∨ ∃ sc, Jaeger.extract h = .ok (some sc) ∧ Installable sc) :=
+  ⟨b3_extract_valid_or_unchanged, jaeger_extract_valid_or_unchanged⟩
+
 /-! ### Exact acceptance: extraction installs a context **iff** the carrier presents acceptable fields -/
 
 theorem splitString3_cases (sep : UInt8) (s : Bytes) :
